@@ -44,8 +44,8 @@ ASSUMPTIONS = [
     'rotations are orthonormal (the statement quantifies over orthonormal rotations); for boxes built by elfi itself the rotation is read from the box',
 ]
 CONFIG = {
-    'quick': {'shards': 16, 'cases': 110, 'timeout': 600, 'floor': 350},
-    'thorough': {'shards': 32, 'cases': 2400, 'timeout': 3000, 'floor': 15000},
+    'quick': {'shards': 16, 'cases': 200, 'timeout': 600, 'floor': 640},
+    'thorough': {'shards': 32, 'cases': 1600, 'timeout': 3000, 'floor': 10240},
 }
 REQUIRED = ['contract_sample', 'contract_contains', 'contract_pdf', 'contract_line_search', 'draws_checked',
             'contains_inside_checked', 'contains_outside_checked', 'pdf_inside_checked', 'pdf_outside_checked',
@@ -324,7 +324,7 @@ def gen_ls(rng):
 
 def gen_post(rng):
     d = int(rng.integers(1, 5))
-    parallel = bool(rng.random() < 0.05)
+    parallel = bool(rng.random() < 0.03)
     return {'kind': 'post', 'd': d, 'k': int(rng.integers(1, 6)), 'rot': str(rng.choice(ROT_KINDS)),
             'prior': 'scipy' if parallel else str(rng.choice(['scipy', 'scipy', 'elfi'])), 'surrogate': bool(rng.random() < 0.5),
             'level': float(rng.choice([0.4, 0.8, 1.3, 2.5])), 'n2': int(rng.choice([1, 5, 12, 25])),
